@@ -45,6 +45,7 @@ type LogOp struct {
 	N      int    `json:"n,omitempty"`
 	Arg    int    `json:"arg,omitempty"`
 	Dup    bool   `json:"dup,omitempty"`    // tracer: the submission is made twice in a row with the same final line (and different collected lines)
+	Nested bool   `json:"nested,omitempty"` // tracer: a second AddTracer on the context that already carries the tracer (nested handlers); only the outer one submits what was collected
 	Shared bool   `json:"shared,omitempty"` // tracer: the lines are collected by several goroutines that share the tracer (a request handler and its helpers)
 }
 
@@ -90,6 +91,10 @@ func (H) Generate(prop string, rng *rand.Rand, tier string) any {
 				op.N = 1 + rng.IntN(5)
 				op.Dup = rng.IntN(3) == 0
 				op.Shared = rng.IntN(3) == 0
+				op.Nested = !op.Dup && !op.Shared && rng.IntN(3) == 0
+				if rng.IntN(5) == 0 {
+					op.Kind, op.Nested, op.Dup, op.Shared = "twin", false, false, false
+				}
 			default:
 				op.Kind = "sleep"
 				op.Arg = rng.IntN(len(sleepLadder))
@@ -187,17 +192,19 @@ type ctrlRec struct {
 }
 
 type callRec struct {
-	Prod, Op int
-	Payload  string
-	Sev, Pkg int
-	Inv, Ret uint64
-	Returned bool
-	Tracer   []string // for tracer submissions: the lines collected before the main line
-	AnyOrder bool     // ... by several goroutines: their relative order is open
-	IsSubmit bool
+	Prod, Op       int
+	Payload        string
+	Sev, Pkg       int
+	Inv, Ret       uint64
+	Returned       bool
+	Tracer         []string // for tracer submissions: the lines collected before the main line
+	AnyOrder       bool     // ... by several goroutines: their relative order is open
+	AddInv, AddRet uint64   // tracer submissions: when the tracer was asked for
+	IsSubmit       bool
 }
 
 type outRec struct {
+	Site   string // file:line of the call site as the adapter sees it
 	Seq    uint64
 	Text   string
 	Sev    int
@@ -214,6 +221,7 @@ type state struct {
 	out                        []outRec
 	startRet, shutInv, shutRet uint64
 	shutReturned               bool
+	twins                      []string // payloads logged from two call sites in a row
 	adapterCalls               int
 	adapterPanicked            bool
 }
@@ -221,7 +229,9 @@ type state struct {
 // useFmt: this run logs through the formatting variants (Infof, tracer.Warningf, ...)
 var useFmt bool
 
-func logAt(pkg, sev int, msg string) {
+func logAt(pkg, sev int, msg string) { logVia(pkg, sev, msg, useFmt) }
+
+func logVia(pkg, sev int, msg string, useFmt bool) {
 	switch {
 	case pkg == 0 && useFmt:
 		pkga.LogF(sev, msg)
@@ -270,7 +280,8 @@ func (H) Execute(prop string, plan any, rc *simkit.RunCtx) {
 		if delay > 0 {
 			time.Sleep(delay)
 		}
-		s.out = append(s.out, outRec{Seq: simrt.Seq(), Text: msg.Text(), Sev: int(msg.Severity()), Dup: duplicates, Tracer: log.VerifSimTracerLines(msg)})
+		s.out = append(s.out, outRec{Seq: simrt.Seq(), Text: msg.Text(), Sev: int(msg.Severity()), Dup: duplicates, Tracer: log.VerifSimTracerLines(msg),
+			Site: fmt.Sprintf("%s:%d", msg.File(), msg.LineNumber())})
 		s.adapterCalls++
 		if p.AdapterPanic > 0 && s.adapterCalls == p.AdapterPanic && !strings.HasPrefix(msg.Text(), "log: writer failed") {
 			// the line counts as handed over; the adapter breaks afterwards
@@ -319,12 +330,35 @@ func (H) Execute(prop string, plan any, rc *simkit.RunCtx) {
 					for k := 0; k < op.N; k++ {
 						s.call(pi, oi, payload, op.Sev, op.Pkg)
 					}
+				case "twin":
+					// the same text, level and file from two different call sites, one right after the other: two
+					// lines that are not identical
+					for k := 0; k < 2; k++ {
+						c := &callRec{Prod: pi, Op: oi, Payload: payload, Sev: op.Sev, Pkg: op.Pkg, Inv: simrt.Seq()}
+						s.calls = append(s.calls, c)
+						logVia(op.Pkg, op.Sev, payload, k == 1)
+						c.Ret, c.Returned = simrt.Seq(), true
+					}
+					s.twins = append(s.twins, payload)
 				case "tracer":
-					var tr *log.ContextTracer
+					var tr, inner *log.ContextTracer
+					var tctx context.Context
+					addInv := simrt.Seq()
 					if op.Pkg == 0 {
-						_, tr = pkga.AddTracer(context.Background())
+						tctx, tr = pkga.AddTracer(context.Background())
 					} else {
-						_, tr = pkgb.AddTracer(context.Background())
+						tctx, tr = pkgb.AddTracer(context.Background())
+					}
+					addRet := simrt.Seq()
+					if tr != nil && op.Nested {
+						// a nested handler asks for a tracer on the context that already carries one: there is one
+						// trace, submitted once; the inner handler's own Submit has nothing to submit
+						if op.Pkg == 0 {
+							_, inner = pkga.AddTracer(tctx)
+						} else {
+							_, inner = pkgb.AddTracer(tctx)
+						}
+						rc.Probe("nested-add-tracer")
 					}
 					if tr == nil {
 						// tracing not enabled for this origin: lines are logged directly
@@ -383,8 +417,14 @@ func (H) Execute(prop string, plan any, rc *simkit.RunCtx) {
 						if lines == nil {
 							c.Tracer = []string{}
 						}
+						if round == 0 {
+							c.AddInv, c.AddRet = addInv, addRet
+						}
 						s.calls = append(s.calls, c)
 						tr.Submit()
+						if round == 0 {
+							inner.Submit()
+						}
 						c.Ret, c.Returned = simrt.Seq(), true
 						rc.Probe("tracer-submitted")
 					}
@@ -656,6 +696,25 @@ func (H) Check(prop string, plan any, rc *simkit.RunCtx) {
 			return
 		}
 	}
+	// the same text from two call sites: lines that are not identical are not merged; where both were handed over, the
+	// adapter has seen two different call sites
+	for _, tw := range s.twins {
+		sites := map[string]bool{}
+		n := 0
+		for _, o := range s.out {
+			if o.Text == tw {
+				sites[o.Site] = true
+				n += int(o.Dup) + 1
+			}
+		}
+		if n >= 2 && len(sites) < 2 {
+			rc.Fail("C20.merged-distinct", "lines that are not identical (same text, different call sites) were merged into one", fmt.Sprintf("%s: %d occurrences, call sites seen: %d", tw, n, len(sites)))
+			return
+		}
+		if n >= 2 {
+			rc.Probe("same-text-from-two-call-sites")
+		}
+	}
 	// tracer submissions carry all collected lines
 	usedSubmit := map[*callRec]bool{}
 	for _, o := range s.out {
@@ -683,6 +742,17 @@ func (H) Check(prop string, plan any, rc *simkit.RunCtx) {
 			if !usedSubmit[c] && o.Tracer != nil && strings.Join(got, "|") == strings.Join(c.Tracer, "|") {
 				usedSubmit[c] = true
 				matched = true
+				noTrace := c.AddRet != 0
+				for _, st := range s.statesDuring(c.AddInv, c.AddRet) {
+					if st.enabled(c.Pkg, 1) {
+						noTrace = false
+					}
+				}
+				if noTrace {
+					// the trace level was not in force for the origin at any moment of the request for the tracer
+					rc.Fail("C20.below-level-emitted", "a context tracer was handed out and its submission emitted although the trace level was not in force for the origin", o.Text)
+					return
+				}
 				break
 			}
 		}
